@@ -30,8 +30,9 @@ order of the Go code; that order is the whole point:
                                                         wgDone       deferred ClientsWg.Done()
                                                         finished
 
-`sync.WaitGroup` is a counter; `Wait` is enabled only when it is 0 (its documented meaning; the misuse
-panic of an `Add` racing a returning `Wait` is not modelled).  Fields marked *ghost* record history for
+The clients `GetByListener` returns come out of a Go map: the schedule also decides which of them the
+closer's loop visits next (`Ev.closerNext`).  `sync.WaitGroup` is a counter; `Wait` is enabled only when
+it is 0 (its documented meaning; the misuse panic of an `Add` racing a returning `Wait` is not modelled).  Fields marked *ghost* record history for
 the statements of the theorems and are never read by a step.
 -/
 namespace Mochi.Shutdown
@@ -156,17 +157,26 @@ def peerClose (s : Sys) (i : Nat) : Sys :=
   | none => s
   | some h => if h.stopped then s else { s with hs := s.hs.set i { h with peerClosed := true } }
 
+/-- `for _, cl := range clients` walks what `GetByListener` collected from a Go map: the order is not
+    determined. The iteration yields client `c` next (if it is among those still to be disconnected). -/
+def closerNext (s : Sys) (c : Nat) : Sys :=
+  match s.cpc with
+  | .disc l todo => if todo.contains c then { s with cpc := .disc l (c :: todo.erase c) } else s
+  | _ => s
+
 /-- a schedule is any list of these -/
 inductive Ev where
   | closer
   | handler (i : Nat)
   | peerClose (i : Nat)
+  | closerNext (c : Nat)     -- map-iteration order of the snapshot, resolved by the schedule
 deriving Repr, DecidableEq
 
 def step (s : Sys) : Ev → Sys
   | .closer => stepCloser s
   | .handler i => stepHandler s i
   | .peerClose i => peerClose s i
+  | .closerNext c => closerNext s c
 
 def run (s : Sys) (sched : List Ev) : Sys := sched.foldl step s
 
